@@ -342,12 +342,14 @@ pub fn apply<V: VirtualFileSystem>(v: &V, c: &Value) -> Value {
             let before = entry_view(&e);
             let f1 = e.clone().follow(true);
             let after1 = entry_view(&f1);
+            // a kept copy of a followed entry is still a followed entry: following the copy again changes nothing either
+            let fc = entry_view(&f1.clone().follow(true));
             let f2 = f1.follow(true);
             let after2 = entry_view(&f2);
             let nf = e.clone().follow(false);
             // follow(false) after follow(true) does not un-follow (the backends' entries are one-way)
             let f1nf = e.clone().follow(true).follow(false);
-            json!({"e": before, "f1": after1, "f2": after2, "nf": entry_view(&nf), "f1nf": entry_view(&f1nf)})
+            json!({"e": before, "f1": after1, "f2": after2, "fc": fc, "nf": entry_view(&nf), "f1nf": entry_view(&f1nf)})
         }),
         _ => r_err("harness::unknown-op"),
     })
